@@ -87,8 +87,8 @@ Section Meaning.
     intros Hok Hraw. destruct c; try discriminate Hraw; cbn [cmd_ok] in Hok.
     - (* Char *)
       eexists. split; [reflexivity|]. cbn [Denote.denote].
-      apply andb_prop in Hok. destruct Hok as [Hok H27]. apply andb_prop in Hok. destruct Hok as [Hs Hb].
-      apply char_good; [exact Hs | destruct (between 127 c 159); [discriminate Hb | reflexivity] | intros ->; discriminate H27].
+      apply andb_prop in Hok. destruct Hok as [Hs Hi].
+      apply (char_good c Hs). destruct (char_introducer c); [discriminate Hi | reflexivity].
     - (* Face *)
       eexists. split; [reflexivity|]. bsplit Hok. apply face_good; assumption.
     - (* FaceModify *)
@@ -133,8 +133,7 @@ Section Meaning.
     - eexists. split; [reflexivity|]. apply good_nil.
     - eexists. split; [reflexivity|]. apply good_nil.
     - (* Termcap *)
-      eexists. split; [reflexivity|]. apply andb_prop in Hok. destruct Hok as [Hb Hne].
-      apply termcap_good; [exact Hb|]. intros ->. discriminate Hne.
+      eexists. split; [reflexivity|]. apply termcap_good. exact Hok.
     - (* Color *)
       eexists. split; [reflexivity|]. cbn [Denote.denote]. apply andb_prop in Hok. destruct Hok as [Hc _].
       change (match color with Some c => [35] ++ hex2 (cr c) ++ hex2 (cg c) ++ hex2 (cb c) | None => [63] end)
@@ -277,3 +276,13 @@ Proof.
   exists bs. split; assumption.
 Qed.
 
+
+(* ---------- KNOWN FINDING: characters that open a control sequence ---------- *)
+Lemma char_introducer_refuted pal256 gray4 cp c :
+  char_introducer c = true ->
+  exists bs, encode pal256 gray4 cp (Char c) = Ok bs /\ vt_complete bs = false.
+Proof.
+  unfold char_introducer. intros H. eexists. split; [reflexivity|].
+  repeat (apply orb_prop in H; destruct H as [H|H]);
+    apply N.eqb_eq in H; subst c; vm_compute; reflexivity.
+Qed.
